@@ -87,6 +87,18 @@ def typed_parameters(reg):
                  if p.annotation in (list, str, int, float) and p.default is p.empty]
         required = sum(1 for p in params if p.default is p.empty)
         out[name] = (required, len(params), typed)
+    # which parameters of which built-in take a list / str / int is part of the language, not of one implementation's
+    # annotations: the table recorded from the pinned tree decides (a built-in or a parameter it does not know is taken from
+    # the signatures as above)
+    try:
+        import json
+        table = json.load(open(os.path.join(os.path.dirname(os.path.dirname(os.path.abspath(__file__))), "q2_typed_parameters.json")))
+        kinds = {"list": list, "str": str, "int": int, "float": float}
+        for name, (req, tot, typed) in table.items():
+            if name in out:
+                out[name] = (req, tot, [(i, kinds[a]) for i, a in typed])
+    except FileNotFoundError:
+        pass
     return out
 
 
@@ -107,8 +119,10 @@ def fault_programs(rng):
         f = f.__wrapped__
     params = [p for p in signature(f).parameters.values()
               if getattr(p.annotation, "__name__", "") != "Datastore" and "Dict" not in str(p.annotation)]
-    for p in params[:required]:
-        good.append(_SAMPLE_OF.get(p.annotation, "1"))
+    by_pos = dict(tp)
+    for i in range(required):
+        ann = by_pos.get(i, params[i].annotation if i < len(params) else None)
+        good.append(_SAMPLE_OF.get(ann, "1"))
     k = rng.randrange(8)
     if k == 0:
         return f"RETURN = {rng.choice(['undefined_var', 'x1', 'Nope'])}", "QueryInterpretException", "unknown-variable"
